@@ -26,6 +26,18 @@ MANIFEST_ENTRY = {
     "technique": "Lean 4 proofs over the cost/crew/emission models + differential correspondence with the real classes + direct oracle (+ whole-run trace oracle)",
 }
 
+def C_req_json(q):
+    from harness.adapters import crew as C
+
+    return C.req_json(q)
+
+
+def C_req_from_json(q):
+    from harness.adapters import crew as C
+
+    return C.req_from_json(q)
+
+
 MODULE = "LdarModel.Props.C10"
 FILE = "LdarModel/Props/C10.lean"
 
@@ -83,7 +95,7 @@ def expected_select(per_day, per_site):
 
 def oracle_mday(ctx, case, r):
     (cls, stationary, per_day, per_site, upfront, budget, crews, cw, reqs) = case
-    inp = {"mday": [cls, stationary, per_day, per_site, upfront, budget, crews, cw, [list(q[:7]) + [list(q[7])] for q in reqs]],
+    inp = {"mday": [cls, stationary, per_day, per_site, upfront, budget, crews, cw, [C_req_json(q) for q in reqs]],
            "impl": {"cost": r.stats.deployment_cost, "reports": {k: list(v) for k, v in r.reports.items()},
                     "crews": [list(c) for c in r.crews]}}
     ct, unit = expected_select(per_day, per_site)
@@ -208,7 +220,7 @@ def stage_mday(ctx):
         ctx.evaluations += 1
         if il != ml:
             ctx.disagree("cost.mday/" + c[0], {"mday": [c[0], c[1], c[2], c[3], c[4], c[5], c[6], c[7],
-                                                        [list(q[:7]) + [list(q[7])] for q in c[8]]]}, ml, il)
+                                                        [C_req_json(q) for q in c[8]]]}, ml, il)
             ctx.count("disagree")
         oracle_mday(ctx, c, r)
         exhausted = any(t["last"] and t["after"][3] for t in r.trace)
@@ -384,7 +396,7 @@ def replay(ctx, data):
     D = core.LeanDriver("drv_cost")
     if "mday" in inp:
         m = inp["mday"]
-        case = (m[0], m[1], m[2], m[3], m[4], m[5], m[6], m[7], [tuple(q[:7]) + (tuple(q[7]),) for q in m[8]])
+        case = (m[0], m[1], m[2], m[3], m[4], m[5], m[6], m[7], [C_req_from_json(q) for q in m[8]])
         r = K.impl_mday(case)
         print("impl :", K.mday_reply(r), "| reports", r.reports, "| crews", r.crews)
         print("model:", D.run([K.mday_line(case)])[0])
